@@ -41,7 +41,12 @@ func pct(t *rapid.T, label string, p int) bool {
 
 var advances = []int{1, 199, 200, 201, 500, 999, 1000, 1001, 3000, 4999, 5000, 5001, 7000}
 
-var metaKeysChoices = [][]string{{"tenant"}, {"Tenant", "env"}, {"TENANT"}, {"env", "tenant", "Region"}}
+var metaKeysChoices = [][]string{{"tenant"}, {"env", "tenant", "Region"}, {"Tenant", "env"}, {"TENANT"}, {"region", "Env", "tenant"}}
+
+// crossValues is ONE small pool shared by all keys: the value of one key equals
+// the value of another key, or the name of a key (key/value confusion in
+// whatever the processor derives its shard identity from).
+var crossValues = []string{"a", "b", "a", "b", "env", "tenant"}
 
 // tenantValues are value lists that a joined or normalised rendering would
 // confuse (the D1 lesson applied to metadata): multi-valued vs the same text in
@@ -52,6 +57,16 @@ var tenantValues = [][]string{
 
 func genMeta(t *rapid.T, i int) map[string][]string {
 	md := map[string][]string{}
+	if pct(t, "crossmeta", 30) {
+		// single values drawn from a pool shared across the keys
+		for _, k := range []string{"tenant", "env", "region"} {
+			if rapid.IntRange(0, 5).Draw(t, "crosshas") > 0 {
+				md[k] = []string{rapid.SampledFrom(crossValues).Draw(t, "crossv")}
+			}
+		}
+		md["other"] = []string{rapid.SampledFrom([]string{"x", "a", "b"}).Draw(t, "otherv")}
+		return md
+	}
 	vs := tenantValues[rapid.IntRange(0, len(tenantValues)-1).Draw(t, "tenantv")]
 	if vs != nil {
 		key := rapid.SampledFrom([]string{"tenant", "TENANT", "Tenant"}).Draw(t, "tenantk")
